@@ -758,11 +758,12 @@ pub mod verif {
     /// Runs the analysis exactly as `Linearizer::linearize` does, optionally
     /// with a smaller propagation step limit.
     pub fn derived_bounds(model: &Model, max_steps: Option<usize>) -> DerivedBounds {
+        let constraints = BoundsAnalyzer::lowered_constraints(model.constraints());
         let analyzer = match max_steps {
-            None => BoundsAnalyzer::analyze(model.domain(), model.constraints()),
+            None => BoundsAnalyzer::analyze(model.domain(), &constraints),
             Some(max_steps) => BoundsAnalyzer::analyze_with_options(
                 model.domain(),
-                model.constraints(),
+                &constraints,
                 BoundsOptions {
                     tolerance: DEFAULT_TOLERANCE,
                     max_steps,
